@@ -111,11 +111,28 @@ pub fn gen_case(seed: u64, idx: usize) -> Case {
         }
         gitconfig = Some(gc);
     }
+    // half of the rendering runs configure the family of hunk-line styles, with references
+    // between its members (emph / non-emph / base / empty-line-marker styles interact when a
+    // changed line has a within-line edit)
+    if rng.chance(1, 2) {
+        const FAMILY: &[&str] = &["plus-style", "minus-style", "zero-style", "plus-emph-style", "minus-emph-style", "plus-non-emph-style", "minus-non-emph-style", "plus-empty-line-marker-style", "minus-empty-line-marker-style"];
+        let mut fam: Vec<&str> = FAMILY.to_vec();
+        rng.shuffle(&mut fam);
+        let k = rng.range(2, 5);
+        let mut chosen: Vec<&str> = fam[..k].to_vec();
+        chosen.sort_by_key(|o| FAMILY.iter().position(|f| f == o));
+        for o in chosen {
+            let idx = FAMILY.iter().position(|f| *f == o).unwrap();
+            let v = if idx > 0 && rng.chance(2, 5) { FAMILY[rng.below(idx as u64) as usize].to_string() } else { style_string(&mut rng) };
+            args.push(format!("--{}", o));
+            args.push(v);
+        }
+    }
     // style options on the command line of rendering runs too (literal styles and references)
     let mut seen_opts: Vec<&str> = Vec::new();
     for _ in 0..rng.range(0, 4) {
         let o = *rng.pick(&STYLE_OPTS[..12]);
-        if seen_opts.contains(&o) {
+        if seen_opts.contains(&o) || args.iter().any(|a| a == &format!("--{}", o)) {
             continue;
         }
         seen_opts.push(o);
